@@ -171,6 +171,11 @@ var handScripts = []item{
 	{Tag: "layout:blank-lines", Edge: "stream", Src: "\n\nstream\n\n    |from()\n\n\n        .measurement('m')\n\n"},
 	{Tag: "layout:multiline-args", Edge: "stream", Src: "stream\n    |from()\n    |eval(lambda: \"a\" + 1,\n          lambda: \"b\" + 2)\n        .as('x',\n            'y')\n"},
 	{Tag: "layout:multiline-lambda", Edge: "stream", Src: "stream\n    |from()\n    |where(lambda: \"a\" > 1 AND\n        (\"b\" < 2 OR\n         \"c\" == 3))\n"},
+	{Tag: "layout:operator-leading", Edge: "stream", Src: "stream\n    |from()\n    |where(lambda: \"a\" > 1\n        AND \"b\" < 2 AND \"c\" == 3 AND \"d\" != 4 AND \"e\" >= 5)\n"},
+	{Tag: "layout:operator-leading-all", Edge: "stream", Src: "stream\n    |from()\n    |where(lambda: \"a\" > 1\n        AND \"b\" < 2\n        AND \"c\" == 3\n        OR \"d\" != 4)\n"},
+	{Tag: "layout:multiline-string-in-expr", Edge: "stream", Src: "stream\n    |from()\n    |eval(lambda: ('''two\nlines''' + \"a\") + \"b\" + \"c\" + \"d\")\n        .as('s')\n"},
+	{Tag: "layout:multiline-string-in-parens", Edge: "stream", Src: "stream\n    |from()\n    |where(lambda: (('two\nlines' + \"a\") % TRUE == 'abc') AND (\"x\" > 1 OR \"y\" < 2))\n"},
+	{Tag: "layout:comment-leading-operator", Edge: "stream", Src: "stream\n    |from()\n    |where(lambda: \"a\" > 1\n        // why b\n        AND \"b\" < 2 AND \"c\" == 3 AND \"d\" != 4)\n"},
 	{Tag: "var:all-types", Edge: "stream", Src: "var s = 'str'\nvar i = 5\nvar f = 1.5\nvar d = 10s\nvar b = TRUE\nvar r = /re/\nvar l = lambda: \"v\" > 1\nvar ls = ['a', 'b']\nvar st = [*]\nvar neg = -5\nvar nf = -1.5\nvar nd = -1h\nvar expr = 1 + 2 * 3\nvar sexpr = 'a' + 'b'\nstream\n    |from()\n        .measurement(s)\n        .groupBy(ls)\n    |window()\n        .period(d)\n        .every(d)\n    |where(l)\n    |where(lambda: \"x\" =~ r AND \"y\" > i AND \"z\" < f AND b AND \"w\" > neg AND \"u\" < nf)\n    |shift(nd)\n    |sample(expr)\n"},
 	{Tag: "var:lambda-in-lambda", Edge: "stream", Src: "var a = lambda: \"x\" + 1\nvar b = lambda: a * 2\nstream\n    |from()\n    |where(lambda: b > 3 AND (a - 1) < 2)\n"},
 	{Tag: "var:node-vars", Edge: "stream", Src: "var data = stream\n    |from()\n        .measurement('m')\nvar w = data\n    |window()\n        .period(10s)\n        .every(10s)\nw\n    |mean('v')\nw\n    |max('v')\ndata\n    |log()\n"},
